@@ -52,3 +52,9 @@ Proof.
   - injection H as <-. exact (step_false s C).
 Qed.
 End LoopPartialCorrectness.
+
+(* The unit-of-measure wrappers around a source / a sink (macro-generated, one body for all unit systems): on the bare values
+   they ARE the wrapped object - one pull, one sink call, the inner finalize - which is what C20's "transparent" means. *)
+Definition unit_source (p : src -> option (option Z * src)) (i : src) : option (option Z * src) := p i.
+Definition unit_sink {S X : Type} (k : S -> X -> S) (s : S) (x : X) : S := k s x.
+Definition unit_finalize {S R : Type} (fin : S -> R) (s : S) : R := fin s.
